@@ -129,7 +129,8 @@ Clauses(e, n) ==
              LET f == e.fills[k] IN c.op = "update" =>
                /\ (f.qty > 0 => f.px = quote[f.asset].ask) /\ (f.qty < 0 => f.px = quote[f.asset].bid) >>,
         << << "C05", "commission" >>, \A k \in 1..Len(e.fills) :
-             LET f == e.fills[k] IN c.op = "update" => f.comm >= 0 /\ Amt(f.comm \in CommissionSet(f.px, f.qty))
+             LET f == e.fills[k] IN c.op = "update" => ((fee.kind = "zero" \/ fee.c + fee.t >= 0) => f.comm >= 0)   \* (rates in [0,1]: never negative)
+                                                     /\ Amt(f.comm \in CommissionSet(f.px, f.qty))
                                                      /\ (fee.kind = "zero" => f.comm = 0) >>,
         << << "C05", "stamp" >>, \A k \in 1..Len(e.fills) : e.fills[k].t = c.t >>,
         \* what the portfolio is debited for its fills of this update: the consideration plus the commission the fill
